@@ -34,7 +34,7 @@ chk(
 chk(
     "C08",
     "translation_validation",
-    "For generated accelerator instances (alu, gemmx geometries, xDMA extension subsets) a streaming region with pairwise distinct marker bounds/strides and distinct kernel parameters is lowered by the real convert-linalg-to-accfg; the emitted program is executed on the accfg machine and the register file latched by the launch is compared field by field, by name, with a reference dictionary written from the property statement (padding, reuse collapse, masks, flags, packed gemmx parameters decoded by bit position, loop counts vs stream steps); value count and declared order are checked as well.",
+    "For generated accelerator instances (alu, gemmx geometries, xDMA extension subsets) a streaming region with pairwise distinct marker bounds/strides and distinct kernel parameters is lowered by the real convert-linalg-to-accfg; the emitted program is executed on the accfg machine and the register file latched by the launch is compared field by field, by name, with a reference dictionary written from the property statement (padding, reuse collapse, masks, flags, packed gemmx parameters decoded by bit position, loop counts vs stream steps); value count and declared order are checked as well. The hard-coded linalg.generic paths of snax_hwpe_mult and snax_alu are driven with 1-D memrefs (sizes, static offsets) and compared by name too.",
     TB + "accfg machine; reference meaning of each field as listed in the evidence assumptions; alu_mode and the xDMA bypass polarity are only checked for position; a boolean written as 1 or all-ones is accepted (xDSL version drift).",
     "runtime monitoring: unique-marker tracing of generated configuration values into named registers, compared with an independent by-name reference",
     "DESIGN.md section 3 C08",
